@@ -12,7 +12,7 @@ EVID = os.path.join(V, 'evidence')
 REPLAY = os.path.join(EVID, 'replay')
 NPROC = min(16, os.cpu_count() or 4)
 GUARD = 'TINS_VERIF_HOOKS'
-CXXFLAGS = ('-O1 -g -fsanitize=address,undefined -fno-sanitize-recover=all -fno-omit-frame-pointer '
+CXXFLAGS = ('-O1 -g -fsanitize=address,undefined -fno-sanitize-recover=all -fsanitize-recover=enum -fno-omit-frame-pointer '
             '-D' + GUARD)
 
 
@@ -479,12 +479,16 @@ def differential(ctx, comp, harness, batch, oracle, cmp=default_cmp, keep_first=
     """batch: list of (sid, lines).  oracle(lines, cpp_lines) -> list of complaints ([] ok) or None (precondition not met).
     known(lines, complaints) -> text of a KNOWN_FINDINGS entry this failure belongs to, or None.
     Returns stats dict."""
+    recovered = [0]
+
     def evaluate(scripts):
         h = run_harness(harness, scripts, args=harness_args)
         m = run_model(comp, scripts) if runner_ok else {}
         out = []
         for sid, lines in scripts:
-            lh = h.get(sid, ['<no harness output>'])
+            lh_all = h.get(sid, ['<no harness output>'])
+            lh = [l for l in lh_all if not l.startswith('!~')]      # recovered UBSan notes: counted, not compared
+            recovered[0] += len(lh_all) - len(lh)
             lm = m.get(sid, ['<no model output>']) if runner_ok else None
             orc = oracle(lines, lh)
             crashes = [l for l in lh if l.startswith('!!')]
@@ -520,6 +524,7 @@ def differential(ctx, comp, harness, batch, oracle, cmp=default_cmp, keep_first=
     results = evaluate(batch)
     stats = {'evaluated': len(batch), 'oracle_applicable': sum(1 for r in results if r[6]),
              'failing': 0, 'known_hits': 0}
+    stats['ubsan_recovered_enum_reports'] = recovered[0]
     if nontrivial:
         ctx.cov['distinct_nontrivial'] += len(set(tuple(r[1]) for r in results if nontrivial(r[1], r[5])))
     ctx.cov['evaluations'] += len(batch)
